@@ -65,6 +65,9 @@ mod workbook;
 #[cfg(test)]
 mod test;
 
+#[cfg(feature = "verif_hooks")]
+pub mod verif_hooks;
+
 #[cfg(any(test, feature = "mock_time"))]
 pub mod mock_time;
 
